@@ -318,6 +318,53 @@ class Env:
         pass
 
 
+class WarmEnv(Env):
+    """a concrete 'first use' of the harness with synthesised non-default inputs (every choice takes its last option, every value is
+    non-zero and distinct).  Run before each path, after the process state was reset, when the harness module sets WARMUP: state that
+    the package leaks from one use to the next (stale caches, shared defaults, reused scratch objects) then meets every value of the path
+    that follows.  Its own assertions are not evaluated."""
+
+    def __init__(self, tier, params):
+        Env.__init__(self, "native", inputs={}, tier=tier, params=params)
+        self.k = 0
+
+    def _given(self, name):
+        kind = self.kinds[name]
+        self.k += 1
+        k = self.k
+        if kind[0] in ("int", "zint"):
+            lo, hi = kind[1], kind[2]
+            return max(lo, min(hi, 2 + k))
+        if kind[0] == "bool":
+            return True
+        if kind[0] == "bytes":
+            return {"b": ("%02x" % (0xA0 + k % 64)) * kind[1]}
+        if kind[0] == "str":
+            n, lo, hi = kind[1], kind[2], kind[3]
+            return chr(max(lo, min(hi, 0x61 + k % 26))) * n
+        if kind[0] == "f64":
+            return {"f64": _struct.unpack("<Q", _struct.pack("<d", 1.5 + k))[0]}
+        if kind[0] == "choose":
+            return kind[1] - 1
+        raise HarnessBug("warm-up: input kind %r" % (kind,))
+
+    def check(self, label, cond, detail=""):
+        pass
+
+
+def wants_warmup(fn):
+    return bool(getattr(sys.modules.get(fn.__module__), "WARMUP", False)) or bool(getattr(fn, "WARMUP", False))
+
+
+def warm_up(fn, params, tier):
+    try:
+        fn(WarmEnv(tier, params))
+    except (KeyboardInterrupt, SystemExit):
+        raise
+    except BaseException:
+        pass
+
+
 # ---------------------------------------------------------------------------
 # functions-encoded collector (sys.monitoring)
 
@@ -361,6 +408,8 @@ def run_path(fn, params, prefix, regions, tier, deadline, qtimeout_ms):
     from . import procstate
 
     procstate.reset()
+    if wants_warmup(fn):
+        warm_up(fn, params, tier)
     ctx = Ctx(prefix, qtimeout_ms=qtimeout_ms)
     ctx.deadline = deadline
     env = Env("sym", ctx=ctx, regions=regions, tier=tier, params=params)
@@ -467,6 +516,8 @@ def run_native(fn, params, inputs, regions=None, tier="quick"):
     from . import procstate
 
     procstate.reset()
+    if wants_warmup(fn):
+        warm_up(fn, params, tier)
     env = Env("native", inputs=inputs, regions=regions, tier=tier, params=params)
     assert sym.CTX is None
     try:
